@@ -65,10 +65,10 @@ CORE_Q = [1, 2, 3, 5, 7, 8, 16, 17]
 MONITOR_Q = [(1, 0), (3, 3), (8, 0), (12, 0), (18, 3)]      # (statement, document)
 BOUNDS = {
     'quick': 'coarse: all unordered pairs (incl. same statement twice) of an 8-statement core with preemption bound 1, 4 deep pairs with bound 2 where points**2 <= 25000 (small documents), each split into 6 disjoint shards, '
-             '4 triples with bound 1, 1 pair (a statement nested deeper than the default recursion limit allows || a short one) with bound 2, 2 pairs on what the prepared context holds (a YAQL-defined function called with keyword arguments only, bound 2; a lazily sorted collection not yet iterated, rebuilt per schedule, bound 1); fine: 2 ordered pairs, every line event, on the warm shared context, and 1 pair on a fresh (cold) shared context per schedule; monitor: 4 statements',
+             '4 triples with bound 1, 1 pair (a statement nested deeper than the default recursion limit allows || a short one) with bound 2, 2 pairs on what the prepared context holds (a YAQL-defined function called with keyword arguments only, bound 2; a lazily sorted collection not yet iterated, rebuilt per schedule, bound 1); fine: 2 ordered pairs, every line event, on the warm shared context, and 1 pair on a fresh (cold) shared context per schedule; monitor: 4 statements; yaql.eval() at line granularity inside yaql/__init__.py after histories of n distinct expressions, n in {0..3} and 2**e-1, 2**e, 2**e+1 for e <= 10',
     'thorough': 'coarse: all pairs of the first 19 statements of the pool with bound 2 where points**2 <= 8000 else bound 1, 13 deep pairs with bound 3 where points**3 <= 150000 (else 2), all triples of a 5-statement core '
-                'with bound 2 where points**2 <= 20000, 3 pairs with the deeply nested statement at bound 2, 6 groups on the prepared context; '
-                'fine: 20 ordered pairs, every line event (warm context), 7 pairs on a cold context per schedule; monitor: all statements; yaql.eval module path',
+                'with bound 2 where points**2 <= 20000, 2 pairs with the deeply nested statement at bound 2, 6 groups on the prepared context; '
+                'fine: 20 ordered pairs, every line event (warm context), 7 pairs on a cold context per schedule; monitor: all statements; yaql.eval module path at dispatch granularity and, at line granularity, after histories of n distinct expressions (n around the powers of two up to 4097, and 10, 100, 1000, 5000)',
 }
 
 _S = {}
@@ -547,6 +547,66 @@ def job_eval_path(pairs, bound):
     return res
 
 
+EVAL_SIZES_Q = sorted(set([0, 1, 2, 3] + [2 ** e + d for e in range(2, 11) for d in (-1, 0, 1)]))
+EVAL_SIZES_T = sorted(set(EVAL_SIZES_Q + [2 ** e + d for e in (11, 12) for d in (-1, 0, 1)] + [10, 100, 1000, 5000]))
+
+
+def _eval_file(fn):
+    return fn.replace('\\', '/').endswith('/yaql/__init__.py')
+
+
+def job_eval_fine(sizes):
+    """yaql.eval() at line granularity inside yaql/__init__.py, after a HISTORY of n distinct expressions already
+    evaluated through it (a long-running host; sizes around the powers of two): thread A evaluates an expression
+    the module has seen before and is preempted at its k-th line in yaql/__init__.py, thread B evaluates one it has
+    not seen, A resumes.  Both must return what they return alone."""
+    res = Result()
+    import yaql as y
+    ea, eb, da, db = POOL[16], POOL[17], DOCS[4], DOCS[5]
+
+    def history(n):
+        y._cached_expressions.clear()
+        if n:
+            y.eval(ea, data=da)
+        for i in range(n - 1):
+            y.eval('%d + 1' % (1000 + i))
+
+    def body_a():
+        return repr(y.eval(ea, data=da))
+
+    def body_b():
+        return repr(y.eval(eb, data=db))
+    y.eval('1')
+    for n in sizes:
+        history(n)
+        exp = [('ok', body_a()), None]
+        history(n)
+        exp[1] = ('ok', body_b())
+        history(n)
+        events = sched.count_line_events(body_a, _eval_file)
+        res.case(('eval-fine', n))
+        for k in range(1, events + 1):
+            history(n)
+            CURRENT_CASE[0] = {'kind': 'eval-fine', 'history': n, 'k': k}
+            f = sched.FineExec(body_a, body_b, k, _eval_file).go()
+            res.evaluations += 1
+            res.transitions += 2
+            res.states += 1
+            res.nontrivial += 1
+            if f.res != exp:
+                history(n)
+                f2 = sched.FineExec(body_a, body_b, k, _eval_file).go()
+                res.fail('interference via yaql.eval module state (line granularity, after a history of evaluated expressions)',
+                         {'kind': 'eval-fine', 'history': n, 'k': k, 'texts': [ea, eb]},
+                         'after %d distinct expressions through yaql.eval(): A preempted at line event %d (%r): A->%r B->%r; alone %r; replay %r'
+                         % (n, k, f.where, f.res[0], f.res[1], exp, f2.res), size=n * 100 + k)
+                res.outcomes['eval-fine violating'] += 1
+                break
+            res.outcomes['eval-fine clean'] += 1
+    y._cached_expressions.clear()
+    return res
+
+
 # ---------------------------------------------------------------------------
 def jobs(tier, seed):
     out = []
@@ -575,7 +635,7 @@ def jobs(tier, seed):
             out.append(('coarse-deep-%d-%02d' % (gi, k), 'job_coarse', ([g], b, 'pair-deep', None, (k, K))))
     # interpreter-wide settings (recursion limit, switch interval, integer digit limit) are shared by all threads: a
     # statement that needs more stack than the default limit allows next to short ones, preemption bound 2
-    for gi, g in enumerate([((DEEP, 3), (16, 3))] if quick else [((DEEP, 3), (16, 3)), ((DEEP, 3), (DEEP, 3)), ((DEEP, 3), (8, 0))]):
+    for gi, g in enumerate([((DEEP, 3), (16, 3))] if quick else [((DEEP, 3), (16, 3)), ((DEEP, 3), (8, 0))]):
         K = 8 if quick else 16
         for k in range(K):
             out.append(('coarse-recursion-%d-%02d' % (gi, k), 'job_coarse', ([g], 2, 'pair-recursion', None, (k, K))))
@@ -621,7 +681,14 @@ def jobs(tier, seed):
     ep = [((1, 0), (2, 1)), ((8, 0), (8, 1))] if quick else [((a, 0), (b, 1)) for a, b in ((1, 2), (8, 8), (0, 14), (5, 5), (7, 6), (3, 3))]
     if not quick:
         out.append(('free-running-supplementary', 'job_free_running', (600,)))
-    out.append(('evalpath', 'job_eval_path', (ep, 1 if quick else 2)))
+    if quick:
+        out.append(('evalpath', 'job_eval_path', (ep, 1)))
+    else:
+        for n, pair in enumerate(ep):
+            out.append(('evalpath-%d' % n, 'job_eval_path', ([pair], 2)))
+    sizes = EVAL_SIZES_Q if quick else EVAL_SIZES_T
+    for k in range(4):
+        out.append(('eval-fine-%d' % k, 'job_eval_fine', (sizes[k::4],)))
     # the measurements above evaluated statements in this (parent) process: workers must not inherit that world
     _S.clear()
     _base.clear()
@@ -651,6 +718,9 @@ def replay(case):
         f = sched.FineExec(lambda: evaluate(*a), lambda: evaluate(*b), case['k'], _filter).go()
         return {'observed': repr(f.res), 'expected': repr(exp), 'where': repr(f.where),
                 'ok': all(f.res[j][:2] == exp[j][:2] for j in range(2))}
+    if k == 'eval-fine':
+        r = job_eval_fine([case['history']])
+        return {'observed': [f.detail for f in r.failures.values()], 'expected': 'both evaluations as alone', 'ok': not r.failures}
     if k == 'monitor':
         r = job_monitor(case['stmt'], case['doc'])
         return {'observed': [f.detail for f in r.failures.values()], 'expected': 'no write to shared state',
